@@ -73,6 +73,10 @@ class ASGIApp:
                 await self.serve_static_file(static_file, receive, send)
             elif self.other_asgi_app is not None:
                 await self.other_asgi_app(scope, receive, send)
+            elif scope['type'] == 'websocket':
+                # HTTP response events are not valid on a WebSocket scope,
+                # the handshake is refused instead
+                await send({'type': 'websocket.close'})
             else:
                 await self.not_found(receive, send)
 
